@@ -1632,3 +1632,14 @@ example (k2 : Keys) (h : KSteps Crypto.dummy (Keys.example1.afterAccept Crypto.d
   c05_no_replay (k := Keys.example1) ⟨⟨_, rfl⟩, by decide⟩ rfl h
 
 end Otr
+
+namespace Otr
+
+/-- repaired code: a rotation that cannot draw its new key changes nothing — no MAC key is queued for
+    disclosure, no counter is forgotten, the key generations stay as they were -/
+theorem rotateOurKeys_fail_unchanged (K : Crypto) (k : Keys) (r : Nat) :
+    k.rotateOurKeys K r none = (k, if r = k.ourKeyID then some .shortRandom else none) := by
+  unfold Keys.rotateOurKeys
+  split <;> rfl
+
+end Otr
